@@ -467,9 +467,20 @@ pub fn generate(rng: &mut Rng, tier: Tier) -> Plan {
             }
             None => Some(rng.i64_in(10957, 22000)),
         };
-        // sometimes only the time of day differs
+        // sometimes only the time of day differs; sometimes only the fraction of the second
+        // (or 23:59:59 against the leap second 23:59:60, which share a timestamp)
         let (settle, tod) = if q.settle.is_some() && rng.chance(0.2) {
             (q.settle, Some((rng.below(86_399) as u32 + 1, 7)))
+        } else if q.settle.is_some() && rng.chance(0.15) {
+            let (s0, n0) = q.tod.unwrap_or((0, 0));
+            let n1 = if s0 == 86_399 && rng.chance(0.5) {
+                if n0 >= 1_000_000_000 { n0 - 1_000_000_000 } else { n0 + 1_000_000_000 }
+            } else if n0 >= 1_000_000_000 {
+                1_000_000_000 + (n0 + 250_000_000) % 1_000_000_000
+            } else {
+                (n0 + 250_000_000) % 1_000_000_000
+            };
+            (q.settle, Some((s0, n1)))
         } else {
             (settle, q.tod)
         };
